@@ -38,7 +38,16 @@ var invalidAttrs = []Attr{
 // Inject adds exactly one invalid construct (marked Inj) at a random place; false if there is
 // no place of the chosen kind.
 func Inject(d *Doc, r *rng.R) bool {
-	switch r.Intn(5) {
+	k := r.Intn(5)
+	// an unclosed inline <svg> swallows the HTML elements that follow it: their attributes then are
+	// SVG attributes, where an element in error is skipped as a whole (by design since 1ac0952), so
+	// element-level injections are not "invalid constructs that are skipped alone" there
+	for _, w := range walk(d.Body) {
+		if w.n.Tag == "#raw" && !strings.HasSuffix(w.n.Text, "</svg>") && (k == 2 || k == 4) {
+			k = 0
+		}
+	}
+	switch k {
 	case 0, 1: // invalid declaration in an existing author/user rule
 		rs := allRules(d)
 		var cand []*Rule
